@@ -21,7 +21,7 @@ func TestC03(t *testing.T) {
 	rc.Forget = false
 	cfg := rsGenCfg{Rules: rc, Vary: true}
 	_ = gen.Small
-	check(t, 0, budget(1500, 60000), func(rt *rapid.T) {
+	check(t, 0, budget(6000, 80000), func(rt *rapid.T) {
 		c, rs := genRSCase(rt, cfg)
 		rep, v := runValidated(rt, c, "C03")
 		nt := rep.MultiCand > 0
